@@ -1,6 +1,6 @@
 (* C16 - property theorems only. *)
 From Coq Require Import String List Permutation QArith Qcanon.
-Require Import PV.Json PV.Workspace PV.WorkspaceRun PV.WorkspaceThms PV.WorkspacePrune PV.WorkspaceSort PV.WorkspaceLik PV.gen.FactsC16.
+Require Import PV.Json PV.Workspace PV.WorkspaceRun PV.WorkspaceThms PV.WorkspacePrune PV.WorkspaceSort PV.WorkspaceLik PV.WorkspaceJson PV.gen.FactsC16.
 Import ListNotations.
 
 (* tie to the source: the join names accepted by combine; modifier types are checked against the types of all (name, type) pairs *)
@@ -104,6 +104,28 @@ Theorem C16_sorted_preserves_likelihood :
   constraint_ll V zero add cterm w' = constraint_ll V zero add cterm w.
 Proof. exact sorted_preserves_likelihood. Qed.
 
+Theorem C16_prune_likelihood_of_remainder :
+  forall (V : Type) (zero one : V) (add mul : V -> V -> V) (ofQ : Qc -> V) (factor delta : modifier -> nat -> V)
+         (logdens : Qc -> V -> V) w mods types samples chans meas,
+  main_ll V zero one add mul ofQ factor delta logdens (prune_ref w mods types samples chans meas) =
+  sum V zero add (fun c => chan_ll V zero one add mul ofQ factor delta logdens w (prune_channel_ref mods types samples c))
+      (filter (fun c => negb (mem_str (c_name c) chans)) (w_channels w)).
+Proof. exact prune_likelihood_of_remainder. Qed.
+
+Theorem C16_rename_preserves_main_likelihood :
+  forall (V : Type) (zero one : V) (add mul : V -> V -> V) (ofQ : Qc -> V) (factor delta factor' delta' : modifier -> nat -> V)
+         (logdens : Qc -> V -> V) (rm rs rc rme : list (string * string)),
+  (forall m b, factor' (pr_modifier rm m) b = factor m b) -> (forall m b, delta' (pr_modifier rm m) b = delta m b) ->
+  forall w, (forall c, In c (w_channels w) -> inj_on rc (c_name c :: map o_name (w_observations w))) ->
+  main_ll V zero one add mul ofQ factor' delta' logdens (rn_spec w rm rs rc rme) = main_ll V zero one add mul ofQ factor delta logdens w.
+Proof. exact rename_preserves_main_likelihood. Qed.
+
+(* the typed AST loses nothing: its JSON document is canonical (key-sorted) and determines the workspace *)
+Theorem C16_document_determines_workspace : forall a b, canon (json_of_ws a) = canon (json_of_ws b) -> a = b.
+Proof. exact canon_json_of_ws_inj. Qed.
+Theorem C16_document_canonical : forall w, canon (json_of_ws w) = json_of_ws w.
+Proof. exact json_of_ws_canonical. Qed.
+
 Print Assumptions C16_combine_none_disjoint.
 Print Assumptions C16_combine_refuses_iff.
 Print Assumptions C16_combine_result_valid.
@@ -118,3 +140,7 @@ Print Assumptions C16_sorted_idempotent.
 Print Assumptions C16_sorted_total.
 Print Assumptions C16_sorted_canonical.
 Print Assumptions C16_sorted_preserves_likelihood.
+Print Assumptions C16_prune_likelihood_of_remainder.
+Print Assumptions C16_rename_preserves_main_likelihood.
+Print Assumptions C16_document_determines_workspace.
+Print Assumptions C16_document_canonical.
